@@ -571,7 +571,7 @@ def run_c30(ctx):
 
 # ================================================================== C31
 SYM = {"CR": b"\r", "LF": b"\n", "SP": b" "}
-TOKBYTES = {"CRLF": b"\r\n", "CR": b"\r", "LF": b"\n", "SP": b" "}
+TOKBYTES = {"CRLF": b"\r\n", "CR": b"\r", "LF": b"\n", "SP": b" ", "A1": b"*1\r\n", "B1": b"$1\r\na\r\n"}
 
 
 def tok_bytes(toks):
@@ -614,11 +614,15 @@ def run_c31(ctx):
             dcases.append({"id": i + 1, "chunks": [b.hex()], "lines": []})
     ctx.rng.shuffle(dcases)
     obs = {}
+    stalls = 0
     for part in run_driver(ctx, "resp", chunks(dcases, ctx.workers)):
         for e in part:
-            obs[e["s"]] = e
+            if e["s"] < 0:
+                stalls += 1
+            else:
+                obs[e["s"]] = e
     cal = obs.get(0)
-    if not cal or bytes.fromhex(cal["out"]) != b"-ERR unknown command 'zz'\r\n":
+    if not cal or not bytes.fromhex(cal["out"]).startswith(b"-ERR unknown command 'zz'\r\n"):
         raise Undecided("reflection channel unavailable: '*1 $2 zz' answered %r" % (cal and bytes.fromhex(cal["out"])))
     events, dead = [], 0
     for i, c in enumerate(cases):
@@ -662,6 +666,10 @@ def run_c31(ctx):
             ctx.violations.append((rp, "suppressed line"))
     if shown > 40:
         print("(%d further failing cases not printed; replays are in %s)" % (shown - 40, ctx.outdir), flush=True)
+    if stalls:
+        ctx.notes.append("%d times a gateway process stopped answering between two cases and was restarted" % stalls)
+        if not per:
+            raise Undecided("a gateway process stopped answering between cases (%d times) although no case was judged failing" % stalls)
     # -------------------------------------------------------------- evidence
     def nontrivial(c):
         return (c["out"]["wf"] and c["out"]["ncmds"] > 0) or any(t in ("2147483648", "9223372036854775807") for t in c["toks"])
@@ -673,7 +681,7 @@ def run_c31(ctx):
     allocs = sorted(e["alloc"] for e in obs.values() if e["alloc"] >= 0)
     ctx.evidence("exploration", {
         "evaluations": len(cases), "distinct_nontrivial": len(nt), "exhaustive": False,
-        "rule": "TLC enumerates the token sequences of Resp.tla up to depth %d over the alphabet {*, $, -1, 0, 1, 2, 2^31, 2^63-1, x, a, CRLF, CR, LF, SP, PING} "
+        "rule": "TLC enumerates the token sequences of Resp.tla up to depth %d over the alphabet {*, $, -1, 0, 1, 2, 2^31, 2^63-1, x, a, CRLF, CR, LF, SP, PING, A1 = '*1 CRLF', B1 = '$1 CRLF a CRLF'} "
                 "(one representative per abstract automaton state and last token, extension stops once the stream is ill-formed); each is sent to the real binary "
                 "on a fresh connection followed by EOF; non-trivial = contains a complete well-formed request or a 2^31 / 2^63-1 length" % depth,
         "samples": [{"tokens": c["toks"], "expected": c["out"], "observed": {k: obs[i + 1][k] for k in ("out", "alive", "alloc", "sent")}} for i, c in list(enumerate(cases))[:3]],
